@@ -226,7 +226,7 @@ def _get_dual_dims(run, P, partial_rule=True):
             continue
         name, d, st = dm
         invol = set(d) == {"n_face", "n_node"} and all(d.get(d[k]) == k for k in d) and d["n_face"] == "n_node"
-        applied = any(isinstance(n, ast.ListComp) and any(isinstance(x, ast.Call) and isinstance(x.func, ast.Attribute) and x.func.attr == "get" and norm(x.func.value) == name for x in ast.walk(n)) for n in ast.walk(f.node))
+        applied = any(isinstance(n, ast.ListComp) and any(isinstance(x, ast.Call) and isinstance(x.func, ast.Attribute) and x.func.attr == "get" and (norm(x.func.value) == name or norm(x.func.value) == norm(st.value)) for x in ast.walk(n)) for n in ast.walk(f.node))
         if invol and applied:
             run.holds("IDX/dual-dims", c, where(f, st), "every dimension renamed through the involution n_face <-> n_node")
         else:
